@@ -65,6 +65,14 @@ class Marker:
         return "zqx%d" % self.n
 
 
+_BASE_LINES = [None]      # the code lines of the script being commented (random cases): a block comment may hold verbatim copies of them
+
+
+def _copy_of_code_line(rng):
+    cand = [l for l in (_BASE_LINES[0] or []) if l.strip() and not any(x in l for x in ("/*", "*/", "--", "'", '"', "#"))]
+    return rng.choice(cand) if cand else None
+
+
 def make_comment(rng, style, mk, text=None, indent=""):
     """returns (lines, [comment line texts as inserted (for containment)], marker ids)"""
     t = text if text is not None else rng.choice(pool(DASH_TEXTS if style == "dash" else []))
@@ -80,7 +88,11 @@ def make_comment(rng, style, mk, text=None, indent=""):
         n = rng.randint(2, 5) if rng.random() < 0.4 else rng.randint(3, 5)
         l = [indent + "/* " + m + " " + t]
         for j in range(n - 2):
-            if not indent and rng.random() < 0.5:
+            cp = _copy_of_code_line(rng) if (not indent and rng.random() < 0.25) else None
+            if cp is not None:
+                # a commented-out copy of a code line of the same script, character for character (no marker word: it is the code line's text)
+                l.append(cp)
+            elif not indent and rng.random() < 0.5:
                 # an interior line that starts, at column 0, with a word the line pre-processor treats specially outside comments
                 l.append(rng.choice(INTERIOR_FIRST) + " " + mk.next() + " more " + rng.choice(pool()))
             else:
@@ -212,10 +224,12 @@ def random_case(rng):
     # (SET lines are assembled by their own rules and are left out)
     inner = rng.random() < INNER_UNTERMINATED_P and not any(re.match(r"\s*(SET)\b", l, re.I) for l in base)
     _NO_SEMI[0] = inner
+    _BASE_LINES[0] = base
     try:
         case = _random_case(rng, mk, base)
     finally:
         _NO_SEMI[0] = False
+        _BASE_LINES[0] = None
     if inner:
         case["inner_unterminated"] = True
     if rng.random() < 0.25:
@@ -337,6 +351,24 @@ def run_shard(ctx):
         check_case(ctx, case)
         if j == 0:
             ctx.sample({"script": "\n".join(case["lines"])[:1500]})
+    # commented-out copies: a column-0 block comment inside / between statements whose interior lines are character-for-character copies of
+    # code lines of the same script (written before or after the comment)
+    for j in range(ctx.budget(240, 4000)):
+        mk = Marker()
+        base = []
+        for q in range(rng.randint(2, 3)):
+            cols = rng.sample(["id int,", "name varchar(10),", "total int,", "order_id int,", "created_at timestamp,", "note text,"], rng.randint(2, 4))
+            cols[-1] = cols[-1].rstrip(",")
+            base += ["CREATE TABLE cc%d (" % q] + ["  " + c for c in cols] + [");"]
+        code = [l for l in base if l.startswith("  ")]
+        copies = rng.sample(code, rng.randint(1, min(3, len(code))))
+        if rng.random() < 0.3:
+            copies.append(rng.choice([l for l in base if l.startswith("CREATE")]))
+        com = ["/* " + mk.next() + " kept for reference"] + copies + ["*/" if rng.random() < 0.6 else "   " + mk.next() + " end */"]
+        pos = rng.randint(0, len(base))
+        lines = base[:pos] + com + base[pos:]
+        check_case(ctx, {"gen": "commented_out_copy", "base": base, "lines": lines, "inserted": com, "styles": ["blockml_copy"]})
+        ctx.obs["commented_out_copy_cases"] += 1
     for case in kf_cases(ctx, ctx.budget(80, 800)):
         check_case(ctx, case)
         ctx.obs["known_finding_class_cases"] += 1
